@@ -103,15 +103,19 @@ func gen(t *rapid.T) Case {
 			c.Groups = append(c.Groups, 0)
 		}
 	}
-	kinds := []string{"counter", "gauge", "timer", "hvalue", "hduration", "flush", "caps", "close"}
+	kinds := []string{"counter", "gauge", "timer", "hvalue", "hduration", "flush", "caps", "caps", "close", "setcaps"}
 	if c.Cached {
-		kinds = []string{"allocc", "allocg", "alloct", "alloch", "alloch", "rcount", "rgauge", "rtimer", "vbucket", "dbucket", "vbucket", "rsamples", "rsamples", "rsamples", "flush", "caps", "close"}
+		kinds = []string{"allocc", "allocg", "alloct", "alloch", "alloch", "rcount", "rgauge", "rtimer", "vbucket", "dbucket", "vbucket", "rsamples", "rsamples", "rsamples", "flush", "caps", "caps", "close", "setcaps"}
 	}
 	nops := rapid.IntRange(1, 30).Draw(t, "nops")
 	for i := 0; i < nops; i++ {
 		op := Op{Kind: rapid.SampledFrom(kinds).Draw(t, "kind")}
 		switch op.Kind {
 		case "flush", "caps", "close":
+		case "setcaps":
+			// a child's own answer changes (a backend that connects late, say): the conjunction follows
+			op.H = rapid.IntRange(0, 7).Draw(t, "h")
+			op.I = int64(rapid.IntRange(0, 3).Draw(t, "caps"))
 		case "rcount", "rsamples":
 			op.I = pbt.AnyInt64().Draw(t, "i")
 			op.H = rapid.IntRange(0, 7).Draw(t, "h")
@@ -223,14 +227,26 @@ func run(c Case) (pbt.Outcome, error) {
 			want = append(want, e)
 		}
 	}
-	wantR, wantT := true, true
-	for _, ch := range c.Children {
-		wantR = wantR && ch.Reporting
-		wantT = wantT && ch.Tagging
+	cur := append([]Child(nil), c.Children...) // what each child currently says about itself
+	setters := make([]func(tally.Capabilities), len(c.Children))
+	capsChanged := false
+	setCaps := func(op Op) {
+		if len(cur) == 0 {
+			return
+		}
+		i := op.H % len(cur)
+		cur[i].Reporting, cur[i].Tagging = op.I&1 != 0, op.I&2 != 0
+		setters[i](rec.Caps(cur[i].Reporting, cur[i].Tagging))
+		capsChanged = true
 	}
 	checkCaps := func(cp tally.Capabilities) {
+		wantR, wantT := true, true
+		for _, ch := range cur {
+			wantR = wantR && ch.Reporting
+			wantT = wantT && ch.Tagging
+		}
 		if cp.Reporting() != wantR || cp.Tagging() != wantT {
-			errs.Addf("capabilities = (%v,%v), want conjunction (%v,%v) of %v", cp.Reporting(), cp.Tagging(), wantR, wantT, c.Children)
+			errs.Addf("capabilities = (%v,%v), want conjunction (%v,%v) of what the children say now: %v", cp.Reporting(), cp.Tagging(), wantR, wantT, cur)
 		}
 	}
 	bucketCalls := 0
@@ -242,7 +258,9 @@ func run(c Case) (pbt.Outcome, error) {
 		for gi, idx := range groups {
 			var leaves []tally.StatsReporter
 			for _, i := range idx {
-				leaves = append(leaves, &rec.Stats{L: log, Child: i, Caps: rec.Caps(c.Children[i].Reporting, c.Children[i].Tagging)})
+				leaf := &rec.Stats{L: log, Child: i, Caps: rec.Caps(c.Children[i].Reporting, c.Children[i].Tagging)}
+				setters[i] = func(cp tally.Capabilities) { leaf.Caps = cp }
+				leaves = append(leaves, leaf)
 			}
 			if nested[gi] {
 				children = append(children, multi.NewMultiReporter(leaves...))
@@ -278,6 +296,8 @@ func run(c Case) (pbt.Outcome, error) {
 				emit(rec.Event{Kind: rec.KFlush})
 			case "caps":
 				checkCaps(m.Capabilities())
+			case "setcaps":
+				setCaps(op)
 			case "close":
 				// a scope closes a reporter that can be closed; should the multi reporter offer that,
 				// it is used - and the reporter goes on being used, as a reporter shared by a second
@@ -295,7 +315,9 @@ func run(c Case) (pbt.Outcome, error) {
 		for gi, idx := range groups {
 			var leaves []tally.CachedStatsReporter
 			for _, i := range idx {
-				leaves = append(leaves, &rec.Cached{L: log, Child: i, Caps: rec.Caps(c.Children[i].Reporting, c.Children[i].Tagging)})
+				leaf := &rec.Cached{L: log, Child: i, Caps: rec.Caps(c.Children[i].Reporting, c.Children[i].Tagging)}
+				setters[i] = func(cp tally.Capabilities) { leaf.Caps = cp }
+				leaves = append(leaves, leaf)
 			}
 			if nested[gi] {
 				children = append(children, multi.NewMultiCachedReporter(leaves...))
@@ -390,6 +412,8 @@ func run(c Case) (pbt.Outcome, error) {
 				emit(rec.Event{Kind: rec.KFlush})
 			case "caps":
 				checkCaps(m.Capabilities())
+			case "setcaps":
+				setCaps(op)
 			case "close":
 				if cl, ok := m.(io.Closer); ok {
 					_ = cl.Close()
@@ -412,6 +436,9 @@ func run(c Case) (pbt.Outcome, error) {
 	}
 	out.NonTrivial = n >= 2 && bucketCalls >= 1
 	out.Classes = append(out.Classes, fmt.Sprintf("children=%d", n))
+	if capsChanged {
+		out.Classes = append(out.Classes, "child-capabilities-changed")
+	}
 	if c.Cached {
 		out.Classes = append(out.Classes, "cached")
 	} else {
@@ -432,7 +459,7 @@ func run(c Case) (pbt.Outcome, error) {
 func TestC19(t *testing.T) {
 	pbt.Main(t, pbt.Prop[Case]{
 		ID: "C19", Name: "multi",
-		Rule: "rapid-generated call histories (1..30 calls, all argument values incl. non-finite floats, int64 extremes, arbitrary byte strings) on a plain or cached multi reporter with 0..5 recording children of all capability combinations; the children's merged global call log must equal, call by call and child by child in registration order, the log predicted from the calls made on the multi reporter. Non-trivial: >=2 children and >=1 histogram bucket call. Distinct: FNV-64 of the case JSON.",
+		Rule: "rapid-generated call histories (1..30 calls, all argument values incl. non-finite floats, int64 extremes, arbitrary byte strings) on a plain or cached multi reporter with 0..5 recording children of all capability combinations, which may change what they say about themselves in the course of the history (the multi reporter's capabilities are the conjunction of what the children say when it is asked); the children's merged global call log must equal, call by call and child by child in registration order, the log predicted from the calls made on the multi reporter. Non-trivial: >=2 children and >=1 histogram bucket call. Distinct: FNV-64 of the case JSON.",
 		Gen:  gen, Run: run, HangAfter: 20 * time.Second,
 	})
 }
